@@ -103,26 +103,27 @@ def main(argv):
         ids = sorted(d for d in os.listdir(SEEDED)
                      if os.path.isfile(os.path.join(SEEDED, d, 'meta.json')))
     res_path = os.path.join(SEEDED, 'RESULTS.json')
-    try:
-        with open(res_path, encoding='utf-8') as f:
-            results = json.load(f)
-    except (OSError, ValueError):
-        results = {}
     rc = 0
     for sid in ids:
         res = run_one(sid, tier, extra)
-        prev = results.get(sid)
-        if prev and prev.get('detected') and not res.get('detected') and tier == 'quick':
-            pass
-        results[sid] = res
         main_chk = res.get('checks', {}).get(res['property'], {})
         print(f"{sid}: property={res['property']} detected={res.get('detected')} "
               f"exit={main_chk.get('exit')} sigs={main_chk.get('signatures')} "
               f"{main_chk.get('wall_s')}s {res.get('error', '')}", flush=True)
         if not res.get('detected'):
             rc = 1
-        with open(res_path, 'w', encoding='utf-8') as f:
-            json.dump(results, f, indent=1, sort_keys=True)
+        # several invocations may run at the same time: merge under a lock
+        import fcntl
+        with open(res_path + '.lock', 'w') as lock:
+            fcntl.flock(lock, fcntl.LOCK_EX)
+            try:
+                with open(res_path, encoding='utf-8') as f:
+                    results = json.load(f)
+            except (OSError, ValueError):
+                results = {}
+            results[sid] = res
+            with open(res_path, 'w', encoding='utf-8') as f:
+                json.dump(results, f, indent=1, sort_keys=True)
     return rc
 
 
